@@ -48,6 +48,9 @@ type MsgSpec struct {
 	Inner []MsgSpec  `json:"inner,omitempty"`
 	P     *ParamSpec `json:"p,omitempty"`
 	Tag   string     `json:"tag,omitempty"` // generator annotation (intent), ignored by the executor
+	// Up: the party named by A is written in the all-upper-case form of its bech32 address (a
+	// legal encoding of the same account; wallets and QR codes produce it)
+	Up bool `json:"up,omitempty"`
 }
 
 // ParamSpec carries parameters for the four UpdateParams messages (raw so that invalid values can
